@@ -32,7 +32,7 @@ READY = False
 TECHNIQUE = (
     "exception-escape closure of parse_directive_text; role-based AST/CFG rules: operand order of the option merge, "
     "linear normal forms of the argument-count comparisons, dominance and path counting over the option validation loop, "
-    "string-origin tracing of the body-offset arithmetic"
+    "flow-aware taint of returned option dicts, string-origin tracing of the body-offset arithmetic, newline-span analysis of the delimiter regex tree"
 )
 
 META = {
@@ -51,7 +51,12 @@ META = {
         "value = the converter's result, converter = option_spec[name]) and reports nothing. R5: no definition of the reported body offset "
         "combines the line count of a string that went through '\\n'.join (which loses a trailing empty line) with the line count of another "
         "string; dropping the leading blank body line and incrementing the offset are control-equivalent, happen at most once and only "
-        "for a blank line."
+        "for a blank line; the first line is merged in front of the body only under a test that excludes whitespace-only text (the same notion of "
+        "blank the strip uses). R4 also: every return of the options parser hands back the dict filled by the validation loop, a dict no option "
+        "value can reach (flow-aware taint from additional_options and from the tokenizer result), or is one of the two documented bypasses "
+        "(validate_options=False, docutils TestDirective) whose guards are re-verified. R6: the regex that locates the closing --- delimiter is "
+        "parsed with re._parser; the number of newline characters a match can contain must be fixed, and pattern + slice offset must skip exactly "
+        "one line terminator."
     ),
     "not_decided": "the exact partition (body lines / offset values) for every content layout; the values converters return; what a `---` block's dedent does to values",
     "trusted_base": [
@@ -404,6 +409,9 @@ def _machinery(corpus: Corpus) -> Machinery:
 # R2 priority operand order + forwarding of additional_options
 
 
+MUTATORS = ("update", "setdefault", "append", "extend", "insert", "add", "__setitem__")
+
+
 def _taint(fi: FunctionInfo, seeds: set[str], exclude: ast.stmt | None) -> set[str]:
     """Names that may hold a value derived from ``seeds`` when ``exclude`` executes (all names if exclude is None).
     Only definitions from which ``exclude`` is reachable in the CFG are followed (no kill analysis)."""
@@ -420,7 +428,10 @@ def _taint(fi: FunctionInfo, seeds: set[str], exclude: ast.stmt | None) -> set[s
         if st is None:
             return True
         if st not in reach_cache:
-            reach_cache[st] = exclude in cfg.reachable_from(st)
+            # a binding only takes effect on the *normal* successors of its statement: the exceptional
+            # edge into a handler means the statement was interrupted before it bound anything
+            normal = [x for x in cfg.succ.get(st, []) if not (isinstance(x, tuple) and x[0] == "H")]
+            reach_cache[st] = any(exclude in cfg.reachable_from(x) for x in normal)
         return reach_cache[st]
 
     changed = True
@@ -429,12 +440,20 @@ def _taint(fi: FunctionInfo, seeds: set[str], exclude: ast.stmt | None) -> set[s
         for n in fi.local_nodes():
             if n is exclude:
                 continue
-            if not isinstance(n, (ast.Assign, ast.AnnAssign, ast.AugAssign, ast.For, ast.comprehension, ast.NamedExpr)) or not reaches(n):
+            if not isinstance(n, (ast.Assign, ast.AnnAssign, ast.AugAssign, ast.For, ast.comprehension, ast.NamedExpr, ast.Expr)) or not reaches(n):
                 continue
             tg: list[str] = []
             val = None
-            if isinstance(n, ast.Assign):
+            if isinstance(n, ast.Expr):
+                # in-place mutation: X.update(Y) / X.setdefault(k, v) / X.append(v) ... taints X
+                c = n.value
+                if isinstance(c, ast.Call) and isinstance(c.func, ast.Attribute) and isinstance(c.func.value, ast.Name) and c.func.attr in MUTATORS:
+                    tg = [c.func.value.id]
+                    val = ast.Tuple(elts=list(c.args) + [k_.value for k_ in c.keywords], ctx=ast.Load())
+            elif isinstance(n, ast.Assign):
                 tg = [x for t_ in n.targets for x in target_names(t_)]
+                # X[k] = v taints X
+                tg += [t_.value.id for t_ in n.targets if isinstance(t_, ast.Subscript) and isinstance(t_.value, ast.Name)]
                 val = n.value
             elif isinstance(n, ast.AnnAssign) and n.value is not None:
                 tg, val = target_names(n.target), n.value
@@ -483,17 +502,18 @@ def _merge_verdict(corpus: Corpus, fi: FunctionInfo, add_param: str):
         a_t = _taint(fi, {add_param}, st)
         b_t = _taint(fi, tok_seed, st)
         a_only = {n for n in used if n in a_t and n not in b_t}
-        b_only = {n for n in used if n in b_t and n not in a_t}
+        # an operand that already holds block options (possibly on top of defaults merged earlier) plays the block role
+        b_only = {n for n in used if n in b_t}
         if not a_only or not b_only:
             continue
 
         def role(e: ast.expr) -> str:
             ns = names_in(e)
             ia, ib = bool(ns & a_t), bool(ns & b_t)
-            if ia and not ib:
-                return "A"
-            if ib and not ia:
+            if ib:
                 return "B"
+            if ia:
+                return "A"
             return "?"
 
         order: list[str] | None = None  # operands from losing to winning
@@ -1240,7 +1260,52 @@ def r4_one_validation_path(corpus: Corpus, rep: Report, tier: str):
             rep.ok("C08.R4", k, m.site(iff))
         else:
             rep.violation("C08.R4", k, m.site(iff), f"a path from the loop to the result skips the report of `{u}`")
-    rep.expect_min("C08.R4", 20, "2x2 style-branch obligations, >=8 validation steps, 8 path classes, store roles")
+    # ---- every return hands back validated options, an empty dict, or is a documented bypass
+    entry = vm.entry
+    try:
+        call_bind = bind_args(vm.options_call, f)
+    except Unsupported:
+        call_bind = {}
+    add_params = {p_ for p_, e_ in call_bind.items() if "additional_options" in names_in(e_)}
+    raw_params = {p_ for p_, e_ in call_bind.items() if "validate_options" in names_in(e_)}
+    tok_seed: set[str] = set()
+    st_tok = _stmt(tok)
+    if isinstance(st_tok, ast.Assign):
+        for t_ in st_tok.targets:
+            tok_seed.update(target_names(t_))
+    for ret, ctor in vm.returns:
+        e = ctor_field(ctor, vm.fields, vm.options_field)
+        k = f"{f.fq}|returned options are validated, empty, or a documented bypass|{short(ret, 60)}"
+        site = m.site(ret)
+        if e is None:
+            rep.error("C08.R4", f"{site}: return without an options field")
+            continue
+        if isinstance(e, ast.Name) and e.id == vm.res_name:
+            if ret is final_ret:
+                rep.ok("C08.R4", k, site, "the dict filled by the validation loop")
+            else:
+                rep.ok("C08.R4", k, site, "the validated result dict (possibly still empty)")
+            continue
+        gs = cfg.guards(ret)
+        if any(pol and isinstance(t_, ast.Name) and t_.id in raw_params for t_, pol in gs):
+            rep.assumed("C08.R4", k, site, "validate_options=False: the caller (myst-nb) asked for the raw YAML mapping; guard on the parameter bound to `not validate_options` re-verified")
+            continue
+        if any(
+            pol and isinstance(t_, ast.Call) and dotted(t_.func) == "issubclass" and len(t_.args) == 2 and isinstance(t_.args[0], ast.Name) and t_.args[0].id == vm.cls_param and m.resolve(dotted(t_.args[1]) or "").endswith(".TestDirective")
+            for t_, pol in gs
+        ):
+            rep.assumed("C08.R4", k, site, "docutils' TestDirective (testing only) accepts every option unvalidated by design; guard issubclass(<class>, TestDirective) re-verified")
+            continue
+        used = names_in(e)
+        a_t = _taint(f, set(add_params), ret) if add_params else set()
+        b_t = _taint(f, tok_seed, ret)
+        leak_a, leak_b = sorted(used & a_t), sorted(used & b_t)
+        if leak_a or leak_b:
+            src_ = " and ".join(x for x in (("the externally supplied additional options (via `%s`)" % ", ".join(leak_a)) if leak_a else "", ("the tokenized option block (via `%s`)" % ", ".join(leak_b)) if leak_b else "") if x)
+            rep.violation("C08.R4", k, site, f"`{short(ret, 60)}` hands back option values from {src_} that never passed the option_spec lookup/conversion loop: unknown or invalid options are kept, unconverted and without a warning")
+        else:
+            rep.ok("C08.R4", k, site, "no option value can reach this dict (only empty-dict definitions reach the return)")
+    rep.expect_min("C08.R4", 24, "2x2 style-branch obligations, >=8 validation steps, 8 path classes, store roles, 4 returns")
 
 
 # ---------------------------------------------------------------------------
@@ -1374,6 +1439,74 @@ def _head_change(st: ast.stmt, body: str):
     return None
 
 
+def _judge_merge_guard(rep: Report, entry: FunctionInfo, cfg, st: ast.stmt, X: str, BODY: str) -> None:
+    """The text merged in front of the body must be known to be non-blank (``X.strip()`` truthy): the
+    blank-line strip further down treats a whitespace-only line as blank, so a weaker test (``if X:``)
+    lets a whitespace-only first line become body line 0, reset the offset and eat the one allowed strip."""
+    k = f"{entry.fq}|the first line is merged into the body only when it is not blank"
+    site = entry.module.site(st)
+    strong, weak, other = [], [], []
+    derived = _taint(entry, {X}, None)
+    nonspace = False
+
+    def is_strip(c: ast.AST) -> bool:
+        return isinstance(c, ast.Call) and isinstance(c.func, ast.Attribute) and c.func.attr in ("strip", "lstrip", "rstrip", "split") and not c.args and not c.keywords and isinstance(c.func.value, ast.Name) and c.func.value.id == X
+
+    for t, pol in cfg.guards(st):
+        # a local bound once to an expression over the first line stands for that expression
+        for _ in range(3):
+            if isinstance(t, ast.Name) and t.id != X and t.id in derived:
+                v = single_value(entry, t.id)
+                if v is None:
+                    break
+                t = v
+        if X not in names_in(t):
+            if names_in(t) & derived:
+                other.append(("" if pol else "not ") + unparse(t))
+            continue
+        if isinstance(t, ast.Compare) and len(t.ops) == 1 and is_strip(t.left) and isinstance(t.comparators[0], ast.Constant) and t.comparators[0].value == "":
+            if (isinstance(t.ops[0], ast.NotEq) and pol) or (isinstance(t.ops[0], ast.Eq) and not pol):
+                strong.append(unparse(t))
+            else:
+                other.append(("" if pol else "not ") + unparse(t))
+        elif isinstance(t, ast.Call) and isinstance(t.func, ast.Attribute) and t.func.attr == "isspace" and isinstance(t.func.value, ast.Name) and t.func.value.id == X and not pol:
+            nonspace = True
+        elif isinstance(t, ast.Call) and isinstance(t.func, ast.Attribute) and t.func.attr in ("strip", "lstrip", "rstrip", "split") and not t.args and not t.keywords and isinstance(t.func.value, ast.Name) and t.func.value.id == X:
+            (strong if pol else other).append(unparse(t))
+        elif isinstance(t, ast.Name):
+            (weak if pol else other).append(("" if pol else "not ") + X)
+        elif isinstance(t, ast.Call) and dotted(t.func) == "len" and len(t.args) == 1 and isinstance(t.args[0], ast.Name):
+            (weak if pol else other).append(("" if pol else "not ") + unparse(t))
+        elif isinstance(t, ast.Compare) and len(t.ops) == 1 and isinstance(t.left, ast.Name) and isinstance(t.comparators[0], ast.Constant) and t.comparators[0].value in ("", None):
+            neq = isinstance(t.ops[0], (ast.NotEq, ast.IsNot))
+            eq = isinstance(t.ops[0], (ast.Eq, ast.Is))
+            if (neq and pol) or (eq and not pol):
+                weak.append(("" if pol else "not ") + unparse(t))
+            else:
+                other.append(("" if pol else "not ") + unparse(t))
+        elif isinstance(t, ast.Compare) and len(t.ops) == 1 and isinstance(t.left, ast.Call) and dotted(t.left.func) == "len" and isinstance(t.comparators[0], ast.Constant) and ((isinstance(t.ops[0], ast.Gt) and t.comparators[0].value == 0) or (isinstance(t.ops[0], ast.GtE) and t.comparators[0].value == 1)) and pol:
+            weak.append(unparse(t))
+        else:
+            other.append(("" if pol else "not ") + unparse(t))
+    if nonspace and weak and not other:
+        strong.append(f"{weak[0]} and not {X}.isspace()")  # non-empty and not all whitespace
+    elif nonspace:
+        other.append(f"not {X}.isspace()")
+    if strong:
+        rep.ok("C08.R5", k, site, f"guarded by {strong[0]}")
+    elif other:
+        rep.error("C08.R5", f"{site}: test on the first line not understood: {other[0]}")
+    else:
+        why = f"only guarded by `{weak[0]}`" if weak else "not guarded by any test on it"
+        rep.violation(
+            "C08.R5",
+            k,
+            site,
+            f"`{short(st, 40)}` is {why}: a whitespace-only first line is inserted as body line 0 (offset reset), then removed again by the blank-line strip "
+            f"(which tests `{BODY}[0].strip()`), so the offset is 1 whatever the option block was and the real separating blank line stays in the body",
+        )
+
+
 @rule("C08.R5")
 def r5_body_offset(corpus: Corpus, rep: Report, tier: str):
     rep.rule("C08.R5", "no definition of body_offset combines the line count of a '\\n'.join-ed string with that of another string; the blank-line strip and the offset increment are paired")
@@ -1455,6 +1588,9 @@ def r5_body_offset(corpus: Corpus, rep: Report, tier: str):
         site = m.site(st)
         if hc[0] == "insert":
             rep.listed("C08.R5", stmt_key(entry, st, 80), site, "first line merged into the body (argument-less directive): offset convention not judged")
+            x = st.value.args[1]
+            if isinstance(x, ast.Name) and x.id in entry.params:
+                _judge_merge_guard(rep, entry, cfg, st, x.id, BODY)
             continue
         k = f"{entry.fq}|dropping the leading blank body line is paired with the offset increment"
         if hc[1] is None:
@@ -1500,7 +1636,184 @@ def r5_body_offset(corpus: Corpus, rep: Report, tier: str):
     rep.expect_min("C08.R5", 3, "definitions of the offset local (2 constants + 1 computed on the pinned tree) and the blank-line strip")
 
 
-RULES = [r1_failure_mode, r2_priority, r3_argument_counts, r4_one_validation_path, r5_body_offset]
+# ---------------------------------------------------------------------------
+# R6 a regex that cuts the content consumes exactly the delimiter line
+
+MANY = 2  # saturating count
+
+
+def _re_flags(e: ast.expr | None) -> int:
+    import re
+
+    if e is None:
+        return 0
+    if isinstance(e, ast.BinOp) and isinstance(e.op, ast.BitOr):
+        return _re_flags(e.left) | _re_flags(e.right)
+    if isinstance(e, ast.Constant) and isinstance(e.value, int):
+        return e.value
+    d = dotted(e) or ""
+    name = d.rsplit(".", 1)[-1]
+    if d.startswith("re.") and name.isupper() and isinstance(getattr(re, name, None), re.RegexFlag):
+        return int(getattr(re, name))
+    raise Unsupported(f"regex flags not understood: {short(e, 40)}")
+
+
+def _newline_span(pattern: str, flags: int) -> tuple[int, int]:
+    """(min, max) number of newline characters a match of ``pattern`` can contain (max saturates at MANY).
+    Decided on the parsed regex tree (re._parser), nothing is matched."""
+    import re._constants as C
+    import re._parser as P
+
+    tree = P.parse(pattern, flags)
+    dotall = bool(tree.state.flags & re_flag("DOTALL"))
+
+    def in_set(items) -> bool:
+        neg = False
+        hit = False
+        for op, av in items:
+            if op is C.NEGATE:
+                neg = True
+            elif op is C.LITERAL:
+                hit |= av == 10
+            elif op is C.RANGE:
+                hit |= av[0] <= 10 <= av[1]
+            elif op is C.CATEGORY:
+                hit |= av in (C.CATEGORY_SPACE, C.CATEGORY_NOT_DIGIT, C.CATEGORY_NOT_WORD, C.CATEGORY_LINEBREAK)
+            else:
+                raise Unsupported(f"regex set item {op}")
+        return hit != neg
+
+    def seq(items) -> tuple[int, int]:
+        lo = hi = 0
+        for op, av in items:
+            a, b = node(op, av)
+            lo, hi = min(MANY, lo + a), min(MANY, hi + b)
+        return lo, hi
+
+    def node(op, av) -> tuple[int, int]:
+        if op is C.LITERAL:
+            return (1, 1) if av == 10 else (0, 0)
+        if op is C.NOT_LITERAL:
+            return (0, 1) if av != 10 else (0, 0)
+        if op is C.ANY:
+            return (0, 1) if dotall else (0, 0)
+        if op is C.IN:
+            return (0, 1) if in_set(av) else (0, 0)
+        if op is C.CATEGORY:
+            return (0, 1) if in_set([(op, av)]) else (0, 0)
+        if op is C.AT:
+            return (0, 0)
+        if op in (C.ASSERT, C.ASSERT_NOT):
+            return (0, 0)  # look-around consumes nothing
+        if op is C.SUBPATTERN:
+            return seq(av[-1])
+        if op is getattr(C, "ATOMIC_GROUP", object()):
+            return seq(av)
+        if op is C.BRANCH:
+            spans = [seq(x) for x in av[1]]
+            return min(a for a, _ in spans), max(b for _, b in spans)
+        if op in (C.MAX_REPEAT, C.MIN_REPEAT) or op is getattr(C, "POSSESSIVE_REPEAT", object()):
+            lo_n, hi_n, sub = av
+            a, b = seq(sub)
+            lo = min(MANY, a * lo_n)
+            hi = 0 if b == 0 else (MANY if (hi_n is C.MAXREPEAT or hi_n * b >= MANY) else hi_n * b)
+            return lo, hi
+        raise Unsupported(f"regex construct {op} not modelled")
+
+    return seq(tree.data)
+
+
+def re_flag(name: str) -> int:
+    import re
+
+    return int(getattr(re, name))
+
+
+RE_FUNCS = ("search", "match", "fullmatch", "finditer", "compile", "split", "sub")
+
+
+@rule("C08.R6")
+def r6_delimiter_regex(corpus: Corpus, rep: Report, tier: str):
+    rep.rule("C08.R6", "a regex whose match position cuts the directive content consumes a fixed number of line terminators, and pattern + slice skip exactly one")
+    vm = validation_machinery(corpus)
+    f, m = vm.f, vm.f.module
+    n = 0
+    for call in f.local_nodes():
+        if not (isinstance(call, ast.Call) and m.resolve(dotted(call.func) or "").startswith("re.") and (dotted(call.func) or "").rsplit(".", 1)[-1] in RE_FUNCS):
+            continue
+        n += 1
+        site = m.site(call)
+        fname = dotted(call.func).rsplit(".", 1)[-1]
+        pat = call.args[0] if call.args else None
+        if isinstance(pat, ast.Name):
+            pat = single_value(f, pat.id) or (m.const_nodes.get(pat.id) if pat.id in m.const_nodes else None)
+        if not (isinstance(pat, ast.Constant) and isinstance(pat.value, str)):
+            rep.error("C08.R6", f"{site}: regex pattern is not a string literal")
+            continue
+        flag_e = None
+        if fname in ("search", "match", "fullmatch", "finditer") and len(call.args) > 2:
+            flag_e = call.args[2]
+        elif fname == "compile" and len(call.args) > 1:
+            flag_e = call.args[1]
+        for kw in call.keywords:
+            if kw.arg == "flags":
+                flag_e = kw.value
+        lo, hi = _newline_span(pat.value, _re_flags(flag_e))
+        k = f"{f.fq}|delimiter regex consumes a fixed number of line terminators"
+        if lo != hi and hi < MANY:
+            rep.error("C08.R6", f"{site}: the pattern {pat.value!r} may or may not consume one newline; whether it does depends on the input")
+            continue
+        if lo != hi:
+            rep.violation(
+                "C08.R6",
+                k,
+                site,
+                f"the pattern {pat.value!r} can match between {lo} and {'2 or more' if hi >= MANY else hi} newline characters: where it is followed by blank lines the match swallows them, "
+                "so content lines after the option block are lost from the body (and the offset no longer points at the first body line)",
+            )
+            continue
+        # the slices taken at the match end: pattern newlines + constant skip == exactly one terminator
+        st = _stmt(call)
+        mname = st.targets[0].id if isinstance(st, ast.Assign) and len(st.targets) == 1 and isinstance(st.targets[0], ast.Name) and st.value is call else None
+        judged = False
+        if mname is not None:
+            for sub in f.local_nodes():
+                if not (isinstance(sub, ast.Subscript) and isinstance(sub.slice, ast.Slice) and sub.slice.lower is not None and sub.slice.upper is None):
+                    continue
+                lw = sub.slice.lower
+                skip = None
+                if isinstance(lw, ast.Call) and unparse(lw) == f"{mname}.end()":
+                    skip = 0
+                elif isinstance(lw, ast.BinOp) and isinstance(lw.op, ast.Add) and unparse(lw.left) == f"{mname}.end()" and isinstance(lw.right, ast.Constant) and isinstance(lw.right.value, int):
+                    skip = lw.right.value
+                elif mname in names_in(lw):
+                    rep.error("C08.R6", f"{m.site(sub)}: slice at the match end not understood: {short(lw, 40)}")
+                    judged = True
+                    continue
+                if skip is None:
+                    continue
+                judged = True
+                k2 = f"{f.fq}|the remaining content starts right after the delimiter line"
+                if lo + skip == 1:
+                    rep.ok("C08.R6", k2, m.site(sub), f"pattern consumes {lo} newline(s), slice skips {skip}")
+                else:
+                    rep.violation(
+                        "C08.R6",
+                        k2,
+                        m.site(sub),
+                        f"`{short(sub, 50)}`: the pattern consumes {lo} line terminator(s) and the slice skips {skip} more character(s); exactly one terminator must be skipped - "
+                        + ("the delimiter's own newline stays in front of the body as a phantom blank line (it uses up the one optional blank-line strip)" if lo + skip == 0 else "characters of the first body line are cut off"),
+                    )
+        if judged or mname is None:
+            rep.ok("C08.R6", k, site, f"{pat.value!r}: exactly {lo} newline(s)")
+        else:
+            rep.ok("C08.R6", k, site, f"{pat.value!r}: exactly {lo} newline(s); match end not used for slicing")
+    if n == 0:
+        rep.ok("C08.R6", f"{f.fq}|no regex cuts the content", f.site(), "option block located without regular expressions")
+    rep.expect_min("C08.R6", 1, "the closing-delimiter search of the --- style (or the statement that there is none)")
+
+
+RULES = [r1_failure_mode, r2_priority, r3_argument_counts, r4_one_validation_path, r5_body_offset, r6_delimiter_regex]
 
 
 # ---------------------------------------------------------------------------
@@ -1608,8 +1921,17 @@ def mutants(corpus: Corpus):
     add("c08-unknown-option-silently-dropped", "C08.R4", splice(src, ua, "pass") if ua is not None else None, "unknown-option path reports exactly once")
     dd = find_node(fo, lambda n: isinstance(n, ast.Assign) and isinstance(n.value, ast.Call) and unparse(n.value.func) == "dedent")
     add("c08-yaml-block-style-forces-yaml-path", "C08.R4", splice(src, dd, ast.get_source_segment(src, dd) + f"\n{indent_of(fo, dd)}as_yaml = True") if dd is not None else None, "`as_yaml`")
-    cj = find_node(fo, lambda n: isinstance(n, ast.Assign) and unparse(n.targets[0]) == "content" and unparse(n.value) == "'\\n'.join(content_lines)")
+    def is_line_join(v: ast.AST) -> bool:
+        return isinstance(v, ast.Call) and isinstance(v.func, ast.Attribute) and v.func.attr == "join" and isinstance(v.func.value, ast.Constant)
+
+    cj = find_node(fo, lambda n: isinstance(n, ast.Assign) and unparse(n.targets[0]) == "content" and is_line_join(n.value) and "content_lines" in names_in(n.value))
     add("c08-colon-style-option-lines-leak", "C08.R4", splice(src, cj, "pass") if cj is not None else None, "removes the option lines")
+    # the tokenizer-error return hands back unvalidated defaults (class: a return path carries options that bypassed the validation loop)
+    th = find_node(fo, lambda n: isinstance(n, ast.ExceptHandler) and n.type is not None and "TokenizeError" in unparse(n.type))
+    tret = next((x for x in ast.walk(th) if isinstance(x, ast.Return) and isinstance(x.value, ast.Call)), None) if th is not None else None
+    add("c08-tokenize-error-returns-raw-defaults", "C08.R4", splice(src, tret.value.args[1], "dict(additional_options or {})") if tret is not None and len(tret.value.args) > 1 else None, "returned options are validated")
+    oi = find_node(fo, lambda n: isinstance(n, ast.AnnAssign) and unparse(n.target) == "options" and isinstance(n.value, ast.Dict) and not n.value.keys)
+    add("c08-options-initialised-from-defaults", "C08.R4", splice(src, oi.value, "dict(additional_options or {})") if oi is not None else None, "returned options are validated")
     stv = find_node(fo, lambda n: isinstance(n, ast.Assign) and isinstance(n.targets[0], ast.Subscript) and unparse(n.targets[0].value) == "new_options")
     add("c08-raw-value-stored", "C08.R4", splice(src, stv.value, "value") if stv is not None else None, "converted value")
     # tokenising moved into one style branch: the ':' branch parses eagerly, the shared call is skipped for it
@@ -1640,6 +1962,24 @@ def mutants(corpus: Corpus):
         add("c08-strip-first-line-unconditionally", "C08.R5", splice(src, strip_if.test, "body_lines"), "paired with the offset increment")
     else:
         out.append(("c08-offset-increment-unconditional", "blank-line strip not found"))
+    # 2629f06 (F12) reverted, one branch at a time: the remaining content rebuilt with a lossy "\n".join
+    dj = find_node(fo, lambda n: isinstance(n, ast.Assign) and unparse(n.targets[0]) == "content" and is_line_join(n.value) and n.value.args and isinstance(n.value.args[0], (ast.GeneratorExp, ast.ListComp)) and "content_lines" not in names_in(n.value))
+    for mid, node in (("c08-lossy-join-colon-style", cj), ("c08-lossy-join-dash-style", dj)):
+        if node is not None and isinstance(node.value.args[0], (ast.GeneratorExp, ast.ListComp)):
+            it = node.value.args[0].generators[0].iter
+            add(mid, "C08.R5", splice(src, node.value, f'"\\n".join({ast.get_source_segment(src, it)})'), "content_offset = len(content.splitlines()) - len(body_lines)", note="reverts 2629f06 (F12)")
+        else:
+            out.append((mid, "terminated-lines join not found"))
+    # the first-line merge guarded by a test that a whitespace-only line passes
+    ins = find_node(ft, lambda n: isinstance(n, ast.Expr) and _head_change(n, "body_lines") == ("insert", None))
+    mg_if = None
+    if ins is not None:
+        for a in ancestors(ins):
+            if isinstance(a, ast.If) and any(isinstance(c, ast.Call) and isinstance(c.func, ast.Attribute) and c.func.attr == "strip" for c in ast.walk(a.test)) and "first_line" in names_in(a.test):
+                mg_if = a
+                break
+    for mid, txt in (("c08-first-line-truthiness", "first_line"), ("c08-first-line-not-none", "first_line is not None"), ("c08-first-line-len", "len(first_line) > 0")):
+        add(mid, "C08.R5", splice(src, mg_if.test, txt) if mg_if is not None else None, "merged into the body only when it is not blank")
     z = sorted((n for n in ft.local_nodes() if isinstance(n, ast.Assign) and unparse(n.targets[0]) == "content_offset" and isinstance(n.value, ast.Constant)), key=lambda n: n.lineno)
     add(
         "c08-lossy-count-in-no-option-branch",
@@ -1647,4 +1987,14 @@ def mutants(corpus: Corpus):
         splice(src, z[0].value, "len(content.splitlines()) - len('\\n'.join(body_lines).splitlines())") if z else None,
         "content_offset = len(content.splitlines()) - len('\\n'.join(body_lines).splitlines())",
     )
+    # ---- R6 -------------------------------------------------------------------
+    rx = find_node(fo, lambda n: isinstance(n, ast.Call) and unparse(n.func) == "re.search" and n.args and isinstance(n.args[0], ast.Constant))
+    if rx is not None:
+        pat = rx.args[0].value
+        add("c08-delimiter-regex-swallows-blank-lines", "C08.R6", splice(src, rx.args[0], repr(pat + r"\s*$")), "delimiter regex")
+        add("c08-delimiter-regex-trailing-space-class", "C08.R6", splice(src, rx.args[0], repr(pat + r"\s*")), "delimiter regex")
+    else:
+        out.append(("c08-delimiter-regex-swallows-blank-lines", "re.search with a literal pattern not found"))
+    sl = find_node(fo, lambda n: isinstance(n, ast.Subscript) and isinstance(n.slice, ast.Slice) and n.slice.lower is not None and isinstance(n.slice.lower, ast.BinOp) and unparse(n.slice.lower).endswith(".end() + 1"))
+    add("c08-delimiter-newline-not-skipped", "C08.R6", splice(src, sl.slice.lower, unparse(sl.slice.lower.left)) if sl is not None else None, "remaining content starts right after")
     return out
